@@ -8,7 +8,7 @@ PRE = ('From Coq Require Import ZArith List Bool.\n'
 
 POS = {'static': 'PStatic', 'relative': 'PRelative', 'absolute': 'PAbsolute', 'fixed': 'PFixed',
        'sticky': 'PSticky'}
-FLAGS = ['flt', 'opa', 'trf', 'ovf', 'clp', 'git', 'col', 'hid', 'rcl']
+FLAGS = ['flt', 'opa', 'trf', 'ovf', 'clp', 'git', 'col', 'hid', 'rcl', 'fit']
 
 
 # ------------------------------------------------------------------------------------------- Coq printers
@@ -74,7 +74,8 @@ def gen_synth(rng, max_nodes):
         t = dict(id=bid, cls=cls, kind=kinds[cls], pos=pos, z=z,
                  opa=(not plain and rng.random() < 0.1), trf=(not plain and rng.random() < 0.08),
                  ovf=(not plain and rng.random() < 0.1), flt=(not plain and rng.random() < 0.15),
-                 git=(not plain and rng.random() < 0.06), ph=(pos in ('absolute', 'fixed') and rng.random() < 0.8),
+                 git=(not plain and rng.random() < 0.06), fit=(not plain and rng.random() < 0.06),
+                 col=(cls in ('TableBox', 'InlineTableBox', 'TableCellBox') and rng.random() < 0.4), ph=(pos in ('absolute', 'fixed') and rng.random() < 0.8),
                  kids=[])
         if cls not in NONPARENT and depth < 6:
             nk = rng.choice([0, 1, 1, 2, 2, 3, 4]) if depth < 3 else rng.choice([0, 0, 1, 2])
@@ -90,7 +91,7 @@ def synth_nodes(tree):
     nodes = {}
     def walk(t):
         nodes[t['id']] = [dict(kind=t['kind'], pos=t['pos'], z=t['z'], opa=t['opa'], trf=t['trf'], ovf=t['ovf'],
-                               flt=t['flt'], git=t['git'], tm='TNone'), [k['id'] for k in t['kids']]]
+                               flt=t['flt'], git=t['git'], fit=t['fit'], col=t['col'], tm='TNone'), [k['id'] for k in t['kids']]]
         for k in t['kids']:
             walk(k)
     walk(tree)
@@ -615,8 +616,8 @@ class Ref(object):
         r = self.b[n]
         if r['z'] is None:
             return 0
-        if not (self.positioned(n) or r['git']) and 'z-index-on-non-positioned' not in self.quirks:
-            return 0                  # z-index applies to positioned boxes (and grid items) only
+        if not (self.positioned(n) or r['git'] or r.get('fit')):
+            return 0                  # z-index applies to positioned boxes (and grid / flex items) only
         return r['z']
 
     def creates(self, n):
@@ -829,11 +830,7 @@ def visible_tokens(boxes, order, canvas, quirks=()):
                 toks.append((n, 'bg', colour_index(r['bgcolor'])))
         elif layer == 'cell-border' and in_collapsed_table(boxes, n):
             # a cell painted as a context: in the collapsing model its borders belong to the table's border phase
-            if 'collapsed-cell-context-border' in quirks:
-                sides = [s for s in 'trbl' if (r['b' + s] or 0) > 0 and r['bc' + s] and r['bc' + s][3] > 0]
-                if sides:
-                    cols = sorted(set(colour_index(r['bc' + s]) for s in sides), key=lambda v: (v is None, v))
-                    toks.append((n, 'border-bogus', cols[0] if len(cols) == 1 else tuple(cols)))
+            pass
         elif layer in ('border', 'cell-border'):
             sides = [s for s in 'trbl' if (r['b' + s] or 0) > 0 and r['bs' + s] not in ('none', 'hidden')
                      and r['bc' + s] and r['bc' + s][3] > 0]
@@ -1041,7 +1038,7 @@ def match_tokens(tokens, leaves):
         if it['kind'] != want_kind or idx not in cols:
             return pairs, ('unexpected', tok, (it['kind'], idx), i)
         j = i + 1
-        if role in ('border', 'border-bogus'):
+        if role == 'border':
             while j < len(leaves) and leaves[j]['kind'] == 'fill' and colour_index(leaves[j]['rgb']) in cols:
                 j += 1
         pairs.append((tok, leaves[i:j]))
@@ -1273,7 +1270,7 @@ def prepare_tokens(page_rec, order, quirks=()):
     return toks, toks_rest, canvas
 
 
-QUIRKS = ('z-index-on-non-positioned', 'table-part-context-background-lost', 'collapsed-cell-context-border')
+QUIRKS = ('table-part-context-background-lost',)
 
 
 def ink_rows(boxes):
@@ -1297,7 +1294,7 @@ def ink_rows(boxes):
             if uniform:
                 return [colour_index(r['bct'])]
             return [colour_index(r['bc' + s_]) for s_ in 'blrt' if s_ in sides]      # draw_border: bottom left right top
-        bm = seq(drawn)
+        bm = [] if cell_in_collapsed else seq(drawn)
         bs = [] if cell_in_collapsed else seq(styled)
         rows.append([-1 if bg is None else bg, [(-7 if v is None else v) for v in bm], -1 if tx is None else tx,
                      [(-7 if v is None else v) for v in bs]])
@@ -1360,7 +1357,7 @@ def judge_doc(case):
             observed.append([it['kind'], idx])
         res['pages'].append(dict(
             bad=[(c, n, d, describe(boxes, n)) for c, n, d in bad], ntokens=len(tokens), nitems=len(leaves),
-            nodes=[[{k: b[k] for k in ('kind', 'pos', 'flt', 'z', 'opa', 'trf', 'tm', 'ovf', 'clp', 'git', 'col',
+            nodes=[[{k: b[k] for k in ('kind', 'pos', 'flt', 'z', 'opa', 'trf', 'tm', 'ovf', 'clp', 'git', 'col', 'fit',
                                        'hid', 'rcl', 'bits', 'cls')}, b['kids']] for b in boxes],
             out=pg['out'], identity=pg['identity'], observed=observed,
             paints=[[n, role, col if not isinstance(col, tuple) else list(col)] for n, role, col in tokens],
@@ -1379,13 +1376,25 @@ WITNESSES = {
     'table-part-context-background-lost':
         '<table id="e2" style="background:#700"><tr id="e3" style="opacity:.5;background:#a00">'
         '<td id="e4" style="background:#d00;color:#e00">ab</td></tr></table>',
-    'z-index-on-non-positioned':
-        '<div id="e2" style="height:10px;background:#700"></div>'
-        '<div id="e3" style="height:10px;background:#a00;opacity:.9;z-index:-1;margin-top:-5px"></div>'
-        '<div id="e4" style="height:10px;background:#d00;margin-top:-5px"></div>',
 }
 # former findings, fixed in /repo: judged like any other document (any deviation is a plain violation)
 FIXED_DOCS = {
+    'z-index-on-non-positioned':      # F105, fixed by 673f68d
+        '<div id="e2" style="height:10px;background:#700"></div>'
+        '<div id="e3" style="height:10px;background:#a00;opacity:.9;z-index:-1;margin-top:-5px"></div>'
+        '<div id="e4" style="height:10px;background:#d00;margin-top:-5px"></div>'
+        '<div id="e5" style="height:10px;background:#010;overflow:hidden;z-index:3"></div>'
+        '<div id="e6" style="height:10px;background:#310;position:relative;z-index:1;margin-top:-5px"></div>',
+    'collapsed-cell-context':         # F106, fixed by 5ad683d
+        '<table id="e2" style="border-collapse:collapse;border:4px solid #900"><tr id="e3">'
+        '<td id="e4" style="color:#e00;position:relative;background:#d00">ab</td>'
+        '<td id="e5" style="color:#110;opacity:.5;border:2px solid #210;background:#010">cd</td></tr></table>',
+    'radius-overlap':                 # F162, fixed by fe0eeda
+        '<div id="e2" style="width:60px;height:100px;border-style:solid;border-color:#900;border-width:0 0 0 40px;'
+        'border-radius:80px;background:#700;background-clip:padding-box"></div>'
+        '<div id="e3" style="width:50px;height:30px;border-style:solid;border-color:#c00;border-width:3px 10px 5px 20px;'
+        'border-radius:9999px;background:#a00;overflow:hidden;color:#b00"><div id="e4" style="background:#d00;'
+        'height:30px;color:#e00">ab</div></div>',
     'grid-context':          # F104, fixed by 22caa46
         '<div id="e2" style="display:grid;background:#700;border:2px solid #900;opacity:.5">'
         '<div id="e3" style="background:#a00;color:#b00">ab</div></div>'
@@ -1570,26 +1579,18 @@ def check(run):
         mism = [k for k, m in zip(kept, masks) if m & 1]
         run.oblige('corr:radius-direct(model rounded_box = Box.rounded_box, exact)', not mism,
                    'first disagreement: %s' % (mism[:1],))
-        done_sig = False
         for (c, o), m in zip(kept, masks):
-            if m & 2 and not m & 4:
-                run.fail('rounded_box: inner radii are not outer radius minus the adjacent side widths: case %s -> %s' % (c, o),
+            if m & 2:
+                run.fail('rounded_box: inner radii are not the used outer radii minus the adjacent side widths: case %s -> %s' % (c, o),
                          {'stream': 'radius-direct', 'case': c, 'impl_output': o})
                 break
-        for (c, o), m in zip(kept, masks):
-            if m & 2 and m & 4 and not done_sig:
-                done_sig = True
-                run.fail('rounded_box: overlapping outer radii: inner radii taken from the unscaled radii: case %s -> %s' % (c, o),
-                         {'stream': 'radius-direct', 'case': c, 'impl_output': o},
-                         signature='c17:inner-radii-from-unscaled-outer')
-        run.oblige('witness:inner-radii-from-unscaled-outer reproduces on the implementation',
-                   bool(kept) and kept[0][0] is RADIUS_WITNESS and masks[0] & 6 == 6,
-                   'the refuted theorem C17_inner_curve_leaves_outer_when_radii_overlap_refuted no longer shows on /repo')
+        run.oblige('former witness of F162: rounded_box follows the CSS rule on overlapping radii',
+                   bool(kept) and kept[0][0] is RADIUS_WITNESS and masks[0] & 3 == 0,
+                   'the repaired behaviour (fe0eeda) is gone: %s' % (kept[:1],))
         run.count('radius-direct', len(kept),
                   [(c['regime'], c['mode'], m & 6, len(set(c['bw']))) for (c, o), m in zip(kept, masks)],
                   samples=[{'case': kept[1][0], 'impl': kept[1][1]}] if len(kept) > 1 else [])
         run.stream_info('radius-direct', overlap_cases=sum(1 for m in masks if m & 4),
-                        css_deviations_with_overlap=sum(1 for m in masks if m & 6 == 6),
                         rule='stub BlockBox with Fraction fields: content size, four different border widths, paddings, eight '
                              'radii in six regimes (small, overlapping, around the border widths, exactly touching, square '
                              'corners, 0/huge), calls of rounded_box(args) / rounded_border_box / rounded_padding_box / '
@@ -1732,10 +1733,7 @@ def check(run):
             what = ('rounded %s of %s: corner radii %s read from the content stream, border box %sx%s, outer radii %s, '
                     'inset %s' % (rc['which'], desc, [round(v, 3) for v in rc['obs'][4:]], rc['W'], rc['H'], rc['R'], rc['ins']))
             data = {'stream': 'display', 'html': d['html'], 'page': pi, 'clause': 'corner-radii', 'box': rc['box'], 'case': rc}
-            if k & 4:
-                run.fail(what + ' [outer radii overlap]', data, signature='c17:inner-radii-from-unscaled-outer')
-            else:
-                run.fail(what, data)
+            run.fail(what + (' [outer radii overlap]' if k & 4 else ''), data)
         run.count('radius-render', len(rad_cases), [(rc['which'], k & 6, tuple(sorted(set(rc['ins']))) != (0.0,),
                                                      len([v for v in rc['R'] if v])) for (_, _, rc, _), k in zip(rad_meta, masks)],
                   samples=[rad_meta[0][2]] if rad_meta else [])
